@@ -33,6 +33,7 @@ RULE += ' Round 5: digit-only string keys in nested dictionaries; cluster ids be
 RULE += ' Round 6: strings that look like fragments of the formats; rows repeating the header; tuples in parameter files.'
 RULE += " Round 7: several views of one buffer in one dictionary; cells starting with '#'; a list of path names whose parameter line exceeds 99 characters."
 RULE += " Round 8: top-level string keys that look like numbers without being str(int) output ('1_0', '+3', ' 4', superscript and full-width digits, '1e3' ...); parameter names starting or ending with '_'."
+RULE += ' Round 9: tables of 1100-2100 rows in which one field is given only in the last ten rows.'
 EXHAUSTIVE = {'quick': True, 'thorough': True}
 EXHAUSTIVE_SCOPE = {'quick': 'array matrix (dtype x rank x layout x length) exhaustive; dictionaries, '
                              'tables and params sampled', 'thorough': 'same matrix; larger random part'}
